@@ -2,6 +2,7 @@ package sym
 
 import (
 	"fmt"
+	"sync/atomic"
 	"go/constant"
 	"go/token"
 	"go/types"
@@ -47,6 +48,7 @@ type Thread struct {
 	done      bool
 	parked    bool
 	resumed   bool
+	justResumed bool
 	panicking bool
 	panicMsg  string
 	vc        VC
@@ -103,6 +105,7 @@ type State struct {
 	model    map[string]uint64
 	fallbacks []*Solver
 	firstRange bool
+	fromSnap bool
 	jsonVals map[*Object]Value
 	choices  []int
 	mergeFns []string
@@ -207,6 +210,44 @@ func (s *State) check(c *Term) SatResult {
 // timeout, then a stateless fallback solver (integer encoding of bit-vector arithmetic), then the
 // primary again with the full timeout. If vars != nil a model is returned on Sat.
 func (s *State) solve(vars []*Term, extra ...*Term) (SatResult, map[string]uint64) {
+	var key [2]uint64
+	if vars == nil {
+		key = s.queryKey(extra)
+		if v, ok := s.ex.qcache.Load(key); ok {
+			atomic.AddInt64(&s.ex.CacheHits, 1)
+			return v.(SatResult), nil
+		}
+		r, m := s.solveUncached(vars, extra...)
+		if r != Unknown {
+			s.ex.qcache.Store(key, r)
+		}
+		return r, m
+	}
+	return s.solveUncached(vars, extra...)
+}
+
+// queryKey hashes the (ordered) path condition and the extra conjuncts; terms are hash-consed
+// process-wide, so equal ids mean equal terms. Two independent 64-bit hashes make a collision
+// (which would be unsound) practically impossible.
+func (s *State) queryKey(extra []*Term) [2]uint64 {
+	h1, h2 := uint64(14695981039346656037), uint64(0x9E3779B97F4A7C15)
+	mix := func(id int64) {
+		x := uint64(id)
+		h1 = (h1 ^ x) * 1099511628211
+		h2 = (h2 + x + 0x632BE59BD9B4E019) * 0xD1342543DE82EF95
+		h2 ^= h2 >> 29
+	}
+	for _, c := range s.pc {
+		mix(c.id)
+	}
+	mix(-7)
+	for _, c := range extra {
+		mix(c.id)
+	}
+	return [2]uint64{h1, h2}
+}
+
+func (s *State) solveUncached(vars []*Term, extra ...*Term) (SatResult, map[string]uint64) {
 	s.sync()
 	full := s.ex.Cfg.TimeoutMs
 	short := s.ex.Cfg.ShortMs
@@ -669,6 +710,8 @@ func (s *State) unwind(th *Thread) {
 }
 
 func (s *State) step(th *Thread) {
+	th.justResumed = th.resumed
+	th.resumed = false
 	fr := th.frames[len(th.frames)-1]
 	if fr.barrier {
 		// the protected call returned normally
